@@ -62,7 +62,8 @@ for pid in ids:
     for s in sd:
         v = json.load(open(s)).get("verif", {})
         res = v.get("result", "")
-        if res.lower().startswith("caught"): sc += 1
+        if v.get("strengthened"): sc += 1; ss += 1
+        elif res.lower().startswith("caught"): sc += 1
         elif "caught after" in res.lower(): sc += 1; ss += 1
         else: sm += 1
     seeded = f"{sc}/{len(sd)}" + (f", {ss} after strengthening" if ss else "") + (f", {sm} NOT caught" if sm else "") if sd else "—"
@@ -95,6 +96,15 @@ for s in sorted(glob.glob(os.path.join(ROOT, "seeded", "*", "meta.json"))):
     v = m.get("verif", {})
     esc = lambda x: str(x).replace("|", "\\|").replace("\n", " ")
     w(f"| {name} | {esc(ch)[:300]} — *needs:* {esc(need)[:260]} | {esc(v.get('result', 'not run'))[:420]} |")
+w("")
+w("### 11.3b Independent HARMLESS changes (seeded/neutral/<id>/meta.json): refactors, reordered independent checks, reworded errors, swapped containers — the checks must stay quiet")
+w("")
+w("| Change | kind | result of `tools/mutant-test` (quick tier, escalated budget) |")
+w("|---|---|---|")
+for s in sorted(glob.glob(os.path.join(ROOT, "seeded", "neutral", "*", "meta.json"))):
+    m = json.load(open(s)); name = os.path.basename(os.path.dirname(s))
+    esc = lambda x: str(x).replace("|", "\\|").replace("\n", " ")
+    w(f"| {name} | {esc(m.get('kind', ''))[:260]} | {esc(m.get('verif', {}).get('result', 'not run'))[:200]} |")
 w("")
 w("### 11.4 Self-test mutants with recorded verdicts (mutants/<id>/RESULTS.json)")
 w("")
